@@ -79,6 +79,14 @@ class SpMat:
 
     _canonical = False
 
+    @property
+    def _shape(self):
+        return self.shape
+
+    @_shape.setter
+    def _shape(self, v):
+        self.shape = tuple(int(x) for x in v)
+
     def _canon(self):
         d = {}
         order = []
